@@ -23,6 +23,7 @@ import (
 // synchronisation while the interleaving stays seeded and replayable.
 
 func raceScenario(w *World, p *Plan, rec *Record) {
+	w.noTruncObserve = true // under the race detector the harness must not touch its own state from a node's goroutine
 	if err := w.bootstrap(); err != nil {
 		rec.Infra = "bootstrap: " + err.Error()
 		return
